@@ -164,6 +164,24 @@ def untruncate(m):
     return canon(tuple(out))
 
 
+def origin_array(uid, depth=0):
+    """the array whose matricisation was (possibly through QR / RQ pre-factorisations and transpositions) decomposed by decomposition `uid`, or None"""
+    m = reg().get(uid)
+    if m is None or depth > 6:
+        return None
+    m = canon(m)
+    if len(m) != 1:
+        return None
+    k, u, op, sel = m[0]
+    if k == 'src':
+        if isinstance(u, tuple) and u[0] == 'unf':
+            return A.CTX.__dict__.get('mx_roots', {}).get(u[1])
+        return None
+    if k in ('R', 'Rr') and sel is None:
+        return origin_array(u, depth + 1)
+    return None
+
+
 def swap_inverse(m):
     """replace diag(1/s) by diag(s) and vice versa (the pseudoinverse has the structure of the reconstruction with the singular values inverted)"""
     if m is None:
